@@ -452,7 +452,7 @@ def run_check(check_id: str, tier: str, base_seed: int, out=sys.stdout):
     if meta.get('exhaustive') is not None:
         evidence['coverage']['exhaustive'] = meta['exhaustive']
     _write_json(os.path.join(VERIF, 'evidence', f'{check_id}.json'), evidence)
-    zero = [k for k in (meta.get('expected_probes') or []) if not probes.get(k)]
+    zero = [k for k in (meta.get('expected_probes') or []) if not probes.get(k) and not fault_counts.get(k)]
     if zero:
         print(f'WARNING property={check_id} probes never hit in this batch: {zero}', file=out)
     print(f'{check_id} tier={tier} seed={base_seed} runs={len(recs)}/{n_runs} distinct_nontrivial={len(nontrivial_digests)} '
